@@ -8,6 +8,7 @@ from . import common as C
 
 VARIANTS_BAD1 = ["badkind", "fewtags", "noenc"]
 VARIANTS_BAD2 = ["badb64", "garbage"]
+COMMIT_OPS = ("invite", "commit", "rename", "remove", "rotate", "rotonto")   # merged by an up-to-date member; publish one evolution event
 
 # ---- generator -----------------------------------------------------------------------------------
 
@@ -32,17 +33,36 @@ class Gen:
         return len(self.groups) - 1
     def commit(self, gi, kind=None):
         g = self.groups[gi]
-        kind = kind or self.r.choice(["commit", "commit", "rename"])
+        kind = kind or self.r.choice(["commit", "commit", "commit", "rename", "rename", "rotate"])
+        if kind == "rotate":
+            return self.rotate(gi)
         if kind == "rename":
             self.ops.append(f"rename {g['creator']} {gi} {self.r.choice([4, 6, 9, 11])}")
         else:
             self.ops.append(f"commit {g['creator']} {gi}")
         g["queue"].append(self.nev)
         self.nev += 1
+    def rotate(self, gi, onto=None):
+        """the creator rotates the group's nostr group id: to a fresh derived value, or ONTO the id group `onto` has now"""
+        g = self.groups[gi]
+        self.ops.append(f"rotate {g['creator']} {gi} {self.r.randint(1, 9)}" if onto is None else f"rotonto {g['creator']} {gi} {onto}")
+        g["queue"].append(self.nev)
+        self.nev += 1
+    def invite(self, gi, kp):
+        g = self.groups[gi]
+        self.ops.append(f"invite {g['creator']} {gi} {kp}")
+        g["queue"].append(self.nev); self.nev += 1
+        w = self.nw; self.nw += 1
+        if kp // 2 == 1:
+            g["ws"].append(w)
+        return w
     def deliver(self, gi):
         g = self.groups[gi]
         if g["queue"]:
             self.ops.append(f"deliver 1 {g['queue'].pop(0)}")
+    def deliver_all(self, gi):
+        while self.groups[gi]["queue"]:
+            self.deliver(gi)
     def probe(self, gi):
         g = self.groups[gi]
         self.ops.append(f"probe 1 {gi} {g['creator']}")
@@ -136,9 +156,119 @@ def gen_case(rng, i):
     G.ops.append("view 1")
     return {"id": f"gen-{i}", "ops": G.ops}
 
+def gen_collision(rng, i):
+    """invitations whose NOSTR group id collides with a record the recipient holds.  Two directions:
+       m_onto_g: client 2's own group g1 is rotated ONTO the id of g0 (the hostile inviter's move: the id is public) and
+                 the recipient R (client 1) is then invited to g1;
+       g_onto_m: g0 is rotated onto g1's id and R is (re-)invited to g0.
+    R holds the OTHER group in every state (none / pending / active / declined / inactive after eviction), the colliding
+    invitation arrives before or after that, is processed, replayed under other wrapper ids, accepted, declined; with some
+    probability the held group rotates away again (R follows) before the invitation is retried and accepted."""
+    backend = rng.choice(["mem", "sql"])
+    G = Gen(rng, backend)
+    direction = rng.choice(["m_onto_g", "m_onto_g", "g_onto_m"])
+    held_state = rng.choice(["none", "pending", "active", "active", "active", "declined", "inactive"])
+    ops = G.ops
+    def hold(gi, w, state, inviter):
+        """bring R's copy of group gi into `state` through invitation w; True when R is an Active member afterwards"""
+        if state == "none":
+            return False
+        ops.append(f"process 1 {w} 0 ok")
+        if state == "pending":
+            return False
+        if state == "declined":
+            ops.append(f"decline 1 {w}" + (" held" if rng.random() < 0.5 else "")); return False
+        ops.append(f"accept 1 {w}" + (" held" if rng.random() < 0.5 else ""))
+        for _ in range(rng.randint(0, 2)):
+            G.commit(gi, rng.choice(["commit", "rename"])); G.deliver(gi)
+        G.deliver_all(gi)
+        if state == "inactive":
+            ops.append(f"remove {inviter} {gi} 1"); G.groups[gi]["queue"].append(G.nev); G.nev += 1
+            G.deliver_all(gi)
+            return False
+        if rng.random() < 0.6:
+            G.probe(gi)
+        return True
+    def inv_ops(w, k, probe_g=None):
+        salts = [0]
+        for _ in range(k):
+            x = rng.random()
+            if probe_g is not None and rng.random() < 0.35:
+                G.probe(probe_g)
+            if x < 0.5:
+                salt = rng.choice(salts) if rng.random() < 0.4 else rng.randint(0, 3)
+                salts.append(salt)
+                v = rng.random()
+                ops.append(f"process 1 {w} {salt} {'ok' if v < 0.85 else 'noid' if v < 0.92 else rng.choice(VARIANTS_BAD1 + VARIANTS_BAD2)}")
+            elif x < 0.8:
+                ops.append(f"accept 1 {w}" + (" held" if rng.random() < 0.5 else ""))
+            else:
+                ops.append(f"decline 1 {w}" + (" held" if rng.random() < 0.5 else ""))
+        if probe_g is not None:
+            G.probe(probe_g)
+    if direction == "m_onto_g":
+        g0 = G.group(0, [2])                  # w0: R's invitation to g0
+        g1 = G.group(2, [7])                  # client 2's own group with client 3
+        early = rng.random() < 0.4            # the colliding invitation exists (and may arrive) before R holds g0
+        active0 = False
+        if not early:
+            active0 = hold(g0, 0, held_state, 0)
+        G.rotate(g1, onto=g0)
+        wc = G.invite(g1, 3)
+        if early:
+            if rng.random() < 0.6:
+                # the squat: R meets the stranger's invitation FIRST; the genuine one then collides with it
+                ops.append(f"process 1 {wc} 0 ok")
+                if rng.random() < 0.3:
+                    ops.append(rng.choice([f"decline 1 {wc}", f"accept 1 {wc}"]))
+            active0 = hold(g0, 0, held_state if held_state != "none" else "active", 0)
+        ops.append(f"process 1 {wc} {rng.randint(0, 1)} ok")
+        inv_ops(wc, rng.randint(2, 5), g0 if active0 else None)
+        if rng.random() < 0.6:
+            # the held group rotates away (R follows only as an Active member); then the invitation is retried
+            G.rotate(g0)
+            G.deliver_all(g0)
+            if active0:
+                G.probe(g0)
+            ops.append(f"process 1 {wc} {rng.choice([0, 1, 4])} ok")
+            inv_ops(wc, rng.randint(1, 4), g0 if active0 else None)
+            if rng.random() < 0.7:
+                G.probe(g1)
+            if rng.random() < 0.4:
+                G.commit(g1); G.deliver(g1); G.probe(g1)
+    else:
+        two0 = rng.random() < 0.5             # is R a member of g0 before g0 takes g1's id?
+        g0 = G.group(0, [2] if two0 else [6])
+        g1 = G.group(2, [3])                  # R's invitation to g1 is the welcome of its creation
+        w1 = G.groups[g1]["ws"][0]
+        active0 = hold(g0, 0, "active", 0) if two0 else False
+        active1 = hold(g1, w1, held_state, 2)
+        G.rotate(g0, onto=g1)
+        if active0:
+            G.deliver_all(g0)                 # R's store refuses the synced record when it holds g1 in any state
+            G.probe(g0); 
+            if active1:
+                G.probe(g1)
+            # R is evicted (it cannot follow: the removal is routed by the id R's store refused) and invited again
+            ops.append(f"remove 0 {g0} 1"); G.groups[g0]["queue"].append(G.nev); G.nev += 1
+            if rng.random() < 0.7:
+                G.deliver_all(g0)
+        wc = G.invite(g0, 2)
+        ops.append(f"process 1 {wc} 0 ok")
+        inv_ops(wc, rng.randint(2, 5), g1 if active1 else None)
+        if rng.random() < 0.5:
+            G.rotate(g1)
+            G.deliver_all(g1)
+            ops.append(f"process 1 {wc} {rng.choice([0, 2])} ok")
+            inv_ops(wc, rng.randint(1, 3), g1 if active1 else None)
+            if rng.random() < 0.6:
+                G.probe(g0)
+    ops.append("view 1")
+    return {"id": f"gen-{i}", "ops": ops}
+
 def generate(seed, n):
     rng = random.Random(seed)
-    return [gen_case(rng, i) for i in range(n)]
+    return [gen_collision(rng, i) if i % 5 in (1, 3) else gen_case(rng, i) for i in range(n)]
 
 def parse_trace(text, name):
     cases, cur = [], None
@@ -173,16 +303,16 @@ def driver_line(op, res):
     if t[0] == "group":
         if not res.startswith("ok"):
             return None
-        return f"group {t[1]} {t[2]} {t[3]} {kv(res,'g')} {kv(res,'w') or '-'} {kv(res,'epoch')} {kv(res,'tok')} {kv(res,'members')}"
+        return f"group {t[1]} {t[2]} {t[3]} {kv(res,'g')} {kv(res,'w') or '-'} {kv(res,'epoch')} {kv(res,'tok')} {kv(res,'members')} {kv(res,'nid')}"
     if t[0] == "forge":
         if not res.startswith("ok"):
             return None
-        return f"forge {t[1]} {t[2]} {t[3]} {t[4]} {kv(res,'w')} {kv(res,'epoch')} {kv(res,'tok')} {kv(res,'members')}"
-    if t[0] in ("invite", "commit", "rename", "remove"):
+        return f"forge {t[1]} {t[2]} {t[3]} {t[4]} {kv(res,'w')} {kv(res,'epoch')} {kv(res,'tok')} {kv(res,'members')} {kv(res,'nid')}"
+    if t[0] in COMMIT_OPS:
         if not res.startswith("ok"):
             return None
         arg = t[3] if len(t) > 3 else "-"
-        return f"{t[0]} {t[1]} {t[2]} {arg} {kv(res,'ev')} {kv(res,'w') or '-'} {kv(res,'epoch')} {kv(res,'tok')} {kv(res,'members')}"
+        return f"{t[0]} {t[1]} {t[2]} {arg} {kv(res,'ev')} {kv(res,'w') or '-'} {kv(res,'epoch')} {kv(res,'tok')} {kv(res,'members')} {kv(res,'nid')}"
     return op
 
 def run(cases):
@@ -220,7 +350,7 @@ def canon_impl(op, o):
         res = "app" if res == "app" else "noapp"
     if t[0] == "deliver":
         res = "commit" if res == "commit" else "nocommit"
-    if t[0] in ("group", "invite", "commit", "rename", "remove", "forge"):
+    if t[0] in ("group", "forge") + COMMIT_OPS:
         res = res.split()[0]
     return res, view
 
@@ -279,11 +409,25 @@ def gfield(part, prefix):
 def gstate(part):
     return part.split(":")[1]
 
+def base_of(part):
+    """what an invitation must not change of a group the user is an Active member of: MLS state token / epoch / member
+    count, and the record's epoch, name, description, admins and nostr group id (with the store's routing answer)"""
+    return tuple(gfield(part, f) for f in ("T", "ME", "MM", "E", "N", "D", "A", "I"))
+
 def oracle(cases):
     fails = []
     stats = {"process_ok": 0, "process_err": 0, "same_wrapper_repeats": 0, "accepts": 0, "fresh_accepts_checked": 0, "declines": 0,
              "invitation_ops_on_active_group": 0, "active_group_checks": 0, "refused_calls_checked": 0, "probes": 0, "probes_app": 0,
-             "recipient_states_met": {}, "variants": {}}
+             "recipient_states_met": {}, "variants": {}, "colliding_invitations_processed": 0, "colliding_invitations_refused": 0,
+             "colliding_invitation_by_state_of_holder": {}, "formerly_colliding_invitations_stored": 0, "routing_probes_after_invitation_ops": 0,
+             "sync_refused_rotations_delivered": 0,
+             # group traffic, not an invitation op, hence not a C16 failure: a commit that rotates a group the client is
+             # Active in onto an id occupied by a record the client never consented to (Pending / declined invitation)
+             # is merged and then refused by the store (mechanism store-limit-sync-failure of C06 / C08)
+             # a fresh accept put the client into exactly the inviter's current state, nothing happened since, yet the next
+             # message of the group is not read (stale exporter secret cached for that epoch number by an earlier, foreign
+             # group of the same MLS group id: needs the open finding welcome-foreign-creator-replaces-mls first)
+             "observations": {"unconsented-invitation-blocks-rotation": 0, "joined-but-unreadable:stale-exporter-secret": 0}}
     def fail(c, k, sig, what):
         fails.append({"kind": "oracle", "signature": sig, "what": f"{c['id']} step {k} `{c['ops'][k]}`: {what}",
                       "replay_body": case_text(c, k, what), "case": c, "step": k})
@@ -297,6 +441,13 @@ def oracle(cases):
         ok_wrappers = {}          # (client, w, salt) -> True once processed ok
         first_ok = set()          # (client, w): the rumor has been stored by this client
         last_fresh = {}           # (client, g) -> the invitation to g this client stored most recently
+        routable = {}             # (client, g) -> invitation-op steps since the last successful probe of g (None: not known routable)
+        refused_collision = set() # (client, w): this invitation was refused while another record held its nostr group id
+        disturbed = {}            # (client, g) -> [(step, signature)] of the invitation ops rule (4) reported for that group
+        ev_nid = {}               # event index -> (group, nostr group id after that commit)
+        fresh_join = {}           # (client, g) -> step of a fresh accept into the group's CURRENT state, nothing but invitation ops / probes since
+        bad_wrappers = set()      # (client, w, salt) under which an undecodable / invalid variant was offered (legitimately recorded as failed)
+        synced_since = {}         # (client, g) -> a commit was processed for g after the client last stored an invitation to g
         next_w = 0
         for k, (op, out) in enumerate(zip(c["ops"], c["impl"])):
             t = op.split()
@@ -307,7 +458,7 @@ def oracle(cases):
                 g = int(kv(res, "g")) if t[0] == "group" else int(t[2])
                 for w in (kv(res, "w") or "-").split(","):
                     if w != "-" and w != "":
-                        wmeta[int(w)] = {"g": g, "epoch": kv(res, "epoch"), "tok": kv(res, "tok"), "members": kv(res, "members"), "k": k}
+                        wmeta[int(w)] = {"g": g, "epoch": kv(res, "epoch"), "tok": kv(res, "tok"), "members": kv(res, "members"), "k": k, "nid": kv(res, "nid")}
             if t[0] == "remove" and res.startswith("ok"):
                 # the group has evicted these clients: whatever they still hold locally is no longer a group
                 # in which they ARE members, so a (re-)invitation cannot "disturb" it
@@ -315,7 +466,16 @@ def oracle(cases):
                     baseline.pop((int(jj), int(t[2])), None)
                     evicted[(int(jj), int(t[2]))] = k
             if t[0] == "forge" and res.startswith("ok"):
-                wmeta[int(kv(res, "w"))] = {"g": int(t[2]), "epoch": kv(res, "epoch"), "tok": kv(res, "tok"), "members": kv(res, "members"), "forged": True}
+                wmeta[int(kv(res, "w"))] = {"g": int(t[2]), "epoch": kv(res, "epoch"), "tok": kv(res, "tok"), "members": kv(res, "members"), "forged": True, "nid": kv(res, "nid")}
+            if t[0] in COMMIT_OPS and res.startswith("ok") and kv(res, "ev") is not None:
+                ev_nid[int(kv(res, "ev"))] = (int(t[2]), kv(res, "nid"))
+            if t[0] in COMMIT_OPS and res.startswith("ok"):
+                for key in [x for x in fresh_join if x[1] == int(t[2])]:
+                    del fresh_join[key]
+            if t[0] in COMMIT_OPS and res.startswith("ok"):
+                # the group moved on: whoever has not processed this commit yet legitimately fails the next probe
+                for key in [x for x in routable if x[1] == int(t[2])]:
+                    routable[key] = None
             if len(t) < 2 or not t[1].isdigit() or int(t[1]) not in (1, 3):
                 continue
             j = int(t[1])
@@ -324,6 +484,18 @@ def oracle(cases):
             ag, aw, ap, apend = parse_view(view)
             views[j] = view
             inv_op = t[0] in ("process", "accept", "decline")
+            # (6) routing key: no two records of one client carry the same nostr group id, and the store answers every
+            # record's id with that record
+            ids = {}
+            for g, part in ag.items():
+                if "norecord" in part:
+                    continue
+                iv = gfield(part, "I") or ""
+                if "!" in iv:
+                    fail(c, k, "routing-id-answers-other-group", f"client {j}: the store answers the nostr group id of group {g} with `{iv.split('!')[1]}` (`{part}`)")
+                if iv.split("!")[0] in ids:
+                    fail(c, k, "routing-id-shared", f"client {j}: groups {ids[iv.split('!')[0]]} and {g} are stored under ONE nostr group id ({iv}): events of either are routed to one of them")
+                ids[iv.split("!")[0]] = g
             # (2) no group is Active without an accept
             for g, part in ag.items():
                 if gstate(part) == "a" and g not in accepted_groups[j]:
@@ -341,6 +513,9 @@ def oracle(cases):
                         stats["fresh_accepts_checked"] += 1
                         exp = ("a", m["epoch"], m["tok"], m["epoch"], m["members"], "r")
                         got = (gstate(part), gfield(part, "E"), gfield(part, "T"), gfield(part, "ME"), gfield(part, "MM"), gfield(part, "SU")) if part else None
+                        if got == exp and not m.get("forged") and not any(wm["g"] == m["g"] and wm.get("k", -1) > m.get("k", -1) for wm in wmeta.values() if not wm.get("forged")) \
+                                and not any(cc.split()[0] in COMMIT_OPS and cc.split()[2] == str(m["g"]) and kk > m.get("k", -1) for kk, cc in enumerate(c["ops"][:k])):
+                            fresh_join[(j, m["g"])] = k      # the invitation is the group's latest operation: the inviter is still in that state
                         if got != exp:
                             # the listed mechanism: the record was written by process_welcome of ANOTHER invitation to the same group,
                             # namely the one this client stored most recently (a replay of a stored rumor writes nothing), and it
@@ -348,7 +523,11 @@ def oracle(cases):
                             lf = last_fresh.get((j, m["g"]))
                             others = {wmeta[lf]["epoch"]} if lf is not None and lf != int(t[2]) and lf in wmeta else set()
                             same_but_epoch = bool(got) and (got[0], got[2], got[3], got[4], got[5]) == (exp[0], exp[2], exp[3], exp[4], exp[5])
-                            sig = "accept-record-of-other-invitation" if same_but_epoch and got[1] in others else "accept-state-mismatch"
+                            # … or the record was re-synchronised in between from an MLS group of that id the client still held
+                            # (an evicted member that had not processed its eviction processed an old commit of the group between
+                            # process_welcome and accept_welcome): accept keeps THAT record (same mechanism, as C08 classifies it)
+                            kept = m["g"] in bg and gfield(bg[m["g"]], "E") == got[1] and synced_since.get((j, m["g"]))
+                            sig = "accept-record-of-other-invitation" if same_but_epoch and (got[1] in others or kept) else "accept-state-mismatch"
                             fail(c, k, sig, f"after accept: (state,record epoch,token,mls epoch,members,self-update) = {got}, the accepted invitation's post-commit state says {exp}")
             if t[0] == "decline" and res == "ok":
                 stats["declines"] += 1
@@ -372,8 +551,8 @@ def oracle(cases):
                     after = ag.get(g)
                     if after == part:
                         continue
-                    mls_after = (gfield(after, "T"), gfield(after, "ME"), gfield(after, "MM")) if after else None
-                    if after and gstate(after) == "a" and mls_after == baseline[(j, g)] and gstate(part) != "a":
+                    if after and gstate(after) == "a" and base_of(after)[:3] == baseline[(j, g)][:3] and gstate(part) != "a" \
+                            and (base_of(after) == baseline[(j, g)] or g == tg):
                         continue            # back to the undisturbed state (e.g. accept of a newer, genuine invitation)
                     # mechanism: the SAME rumor again (replay: processed before by this client / its stored welcome
                     # already Accepted), a rumor of a foreign creator, or ANOTHER genuine invitation to that group id
@@ -384,7 +563,10 @@ def oracle(cases):
                     else:
                         rid_n = rid_of.get(wi)
                         replay = rid_n is not None and rid_n in bw and bw[rid_n].split(":")[1] == "a"
-                    if t[0] == "process" and not res.startswith("ok"):
+                    if g != tg:
+                        # the invitation names ANOTHER group: nothing of this one may move, whatever the invitation contains
+                        sig = "invitation-changes-other-group"
+                    elif t[0] == "process" and not res.startswith("ok"):
                         sig = "welcome-row-before-reject"
                     elif wmeta.get(wi, {}).get("forged"):
                         sig = {"process": "welcome-foreign-creator-overwrites-record", "accept": "welcome-foreign-creator-replaces-mls", "decline": "welcome-foreign-creator-deactivates"}[t[0]]
@@ -392,20 +574,56 @@ def oracle(cases):
                         sig = {"process": "welcome-replay-pending", "accept": "welcome-replay-accept-overwrites", "decline": "welcome-replay-decline-deactivates"}[t[0]]
                     else:
                         sig = {"process": "welcome-other-invitation-overwrites-record", "accept": "welcome-other-invitation-replaces-mls", "decline": "welcome-other-invitation-deactivates"}[t[0]]
-                    fail(c, k, sig, f"group {g}, which client {j} holds Active in MLS state {baseline[(j, g)]}, changed by `{t[0]}` ({res.split()[0]}): before `{part}` after `{after}`")
+                    disturbed.setdefault((j, g), []).append((k, sig))
+                    fail(c, k, sig, f"group {g}, which client {j} holds Active in (token, MLS epoch, members, record epoch, name, description, admins, nostr id) = {baseline[(j, g)]}, changed by `{t[0]}` of an invitation to group {tg} ({res.split()[0]}): before `{part}` after `{after}`")
                 # a fresh, consented join establishes the baseline
                 if t[0] == "accept" and res == "ok" and tg is not None and (j, tg) not in baseline and tg in ag and gstate(ag[tg]) == "a" \
                         and (gfield(ag[tg], "T") == wmeta.get(int(t[2]), {}).get("tok")) and not wmeta.get(int(t[2]), {}).get("forged") \
                         and wmeta.get(int(t[2]), {}).get("k", -1) > evicted.get((j, tg), -1):
-                    baseline[(j, tg)] = (gfield(ag[tg], "T"), gfield(ag[tg], "ME"), gfield(ag[tg], "MM"))
+                    baseline[(j, tg)] = base_of(ag[tg])
+                # (7) collisions: an invitation whose nostr group id another record of this client carries must be refused,
+                # leave NOTHING (no dedup record either: it can be retried), and be accepted once the id is free again
+                if t[0] == "process" and t[4] == "ok" and int(t[2]) in wmeta and wmeta[int(t[2])].get("nid") is not None:
+                    nid = wmeta[int(t[2])]["nid"]
+                    holders = [g for g, part in bg.items() if g != tg and "norecord" not in part and (gfield(part, "I") or "").split("!")[0] == nid]
+                    stored = any(kk[0] == j and kk[1] == t[2] for kk in ok_wrappers)
+                    if holders and not stored:
+                        stats["colliding_invitations_processed"] += 1
+                        hs = gstate(bg[holders[0]])
+                        stats["colliding_invitation_by_state_of_holder"][hs] = stats["colliding_invitation_by_state_of_holder"].get(hs, 0) + 1
+                        if res.startswith("ok"):
+                            fail(c, k, "colliding-invitation-stored", f"the invitation carries nostr group id {nid}, which client {j}'s record of group {holders[0]} holds, and was stored: {res}")
+                        else:
+                            stats["colliding_invitations_refused"] += 1
+                            refused_collision.add((j, int(t[2])))
+                            if view != before:
+                                fail(c, k, "refused-invitation-leaves-something", f"process_welcome returned {res} (nostr group id held by group {holders[0]}) but the client changed: before `{before[:300]}` after `{view[:300]}`")
+                    elif not holders and (j, int(t[2])) in refused_collision and not stored:
+                        if res.startswith("ok"):
+                            stats["formerly_colliding_invitations_stored"] += 1
+                        elif res.split()[0] == "err:Group" or (res.split()[0] == "err:WelcomePreviouslyFailed" and (j, t[2], t[3]) not in bad_wrappers):
+                            fail(c, k, "refused-invitation-blocks-retry", f"the invitation was refused earlier because its nostr group id was held; the id is free now, yet the retry answers {res}")
             if t[0] in ("deliver", "probe"):
                 # group traffic moves the baseline; leaving the group (eviction) ends it
                 for g, part in ag.items():
                     if (j, g) in baseline and bg.get(g) != part:
                         if res == "commit" and gstate(part) == "i" and g in bg and gstate(bg[g]) == "a":
                             del baseline[(j, g)]
-                        elif res in ("commit", "app"):
-                            baseline[(j, g)] = (gfield(part, "T"), gfield(part, "ME"), gfield(part, "MM"))
+                        elif gstate(part) == "a":
+                            # (also when the call failed after the merge: the known mechanism store-limit-sync-failure)
+                            baseline[(j, g)] = base_of(part)
+                        if res == "unprocessable":
+                            stats["sync_refused_rotations_delivered"] += 1
+                            eg, en = ev_nid.get(int(t[2]), (None, None))
+                            if eg == g and any(g2 != g and "norecord" not in p2 and (gfield(p2, "I") or "").split("!")[0] == en and gfield(p2, "T") == "-"
+                                               for g2, p2 in bg.items()):
+                                stats["observations"]["unconsented-invitation-blocks-rotation"] += 1
+            if t[0] == "process" and t[4] not in ("ok", "noid"):
+                bad_wrappers.add((j, t[2], t[3]))
+            if t[0] == "deliver" and res == "commit":
+                for g, part in ag.items():
+                    if bg.get(g) != part:
+                        synced_since[(j, g)] = True
             if t[0] == "process":
                 key = (j, t[2], t[3])
                 if res.startswith("ok") and t[4] == "ok":
@@ -424,6 +642,7 @@ def oracle(cases):
                     if (j, int(t[2])) not in first_ok and int(t[2]) in wmeta:
                         first_ok.add((j, int(t[2])))
                         last_fresh[(j, wmeta[int(t[2])]["g"])] = int(t[2])
+                        synced_since[(j, wmeta[int(t[2])]["g"])] = False
                 else:
                     # (5) a refused invitation has no effect beyond its processed-welcome (dedup) record
                     stats["refused_calls_checked"] += 1
@@ -431,9 +650,34 @@ def oracle(cases):
                         changed = [g for g in set(ag) | set(bg) if ag.get(g) != bg.get(g)]
                         if not any(f["step"] == k and f["case"] is c for f in fails):
                             fail(c, k, "welcome-row-before-reject", f"process_welcome returned {res} but changed group(s) {changed}: before `{[bg.get(g) for g in changed]}` after `{[ag.get(g) for g in changed]}`")
+            # (8) routing: an event of a group the client could read is still processed after any number of invitation
+            # operations (nothing but invitation ops of this client happened in between)
+            if inv_op:
+                for key in routable:
+                    if key[0] == j and routable[key] is not None:
+                        routable[key].append(k)
+            if t[0] == "deliver":
+                for key in [x for x in routable if x[0] == j]:
+                    routable[key] = None
+                for key in [x for x in fresh_join if x[0] == j]:
+                    del fresh_join[key]
             if t[0] == "probe":
                 stats["probes"] += 1
                 stats["probes_app"] += res == "app"
+                key = (j, int(t[2]))
+                if res != "app" and key in fresh_join and ag.get(key[1]) and gstate(ag[key[1]]) == "a":
+                    stats["observations"]["joined-but-unreadable:stale-exporter-secret"] += 1
+                fresh_join.pop(key, None)
+                if res == "app":
+                    if routable.get(key):
+                        stats["routing_probes_after_invitation_ops"] += 1
+                    routable[key] = []
+                else:
+                    if routable.get(key):
+                        # the consequence of an invitation op already reported for this group carries that op's signature
+                        prior = [sg for (st, sg) in disturbed.get(key, []) if st in routable[key]]
+                        fail(c, k, prior[0] if prior else "held-group-unroutable-after-invitation", f"client {j} processed a message of group {t[2]} before the invitation operation(s) at step(s) {routable[key]}; now a fresh message of that group is answered {res}")
+                    routable[key] = None
     return fails, stats
 
 # ---- replay -------------------------------------------------------------------------------------------
